@@ -13,6 +13,7 @@
 """
 import datetime as _dt
 import io
+import os
 import json
 import types
 from hashlib import sha1
@@ -65,17 +66,24 @@ class LockWorld:
     def __init__(self, sim, rel=None):
         self.sim = sim
         self.rel = rel or (lambda p: p)
-        self.held = {}          # path -> (pid, lock object)
+        self.held = {}          # (st_dev, st_ino) of the locked open file -> (pid, lock object)
+        self._aliases = {}
         self.contended = 0
         self.acquired = 0
         self.timeouts = 0
         sim.kill_hooks.append(self._on_kill)
 
+    def alias(self, key):
+        """Deterministic name for an inode (raw inode numbers differ between runs)."""
+        if key not in self._aliases:
+            self._aliases[key] = "ino#%d" % (len(self._aliases) + 1)
+        return self._aliases[key]
+
     def _on_kill(self, proc):
-        for path, (pid, _obj) in list(self.held.items()):
+        for key, (pid, obj) in list(self.held.items()):
             if pid == proc.pid:
-                del self.held[path]
-                self.sim.record("lock-freed-by-os", self.rel(path), None, None, pid=proc.pid)
+                del self.held[key]
+                self.sim.record("lock-freed-by-os", self.rel(obj.filename), self.alias(key), None, pid=proc.pid)
 
 
 def make_fake_portalocker(world, default_timeout=5.0, default_check_interval=0.25):
@@ -98,35 +106,47 @@ def make_fake_portalocker(world, default_timeout=5.0, default_check_interval=0.2
             pid = p.pid if p is not None else -1
             if self.fh is not None:
                 return self.fh
-            start = None
-            while True:
-                # like portalocker: open (creating) the lock file, then try a non-blocking flock on it
-                fh = open(self.filename, "a")
-                sim.yield_point("lock-try", world.rel(self.filename), None)
-                if self.filename not in world.held:
-                    world.held[self.filename] = (pid, self)
-                    world.acquired += 1
-                    self.fh = fh
-                    sim.record("lock-acquired", world.rel(self.filename))
-                    return self.fh
-                fh.close()
-                world.contended += 1
-                sim.record("lock-busy", world.rel(self.filename))
-                if start is None:
-                    start = sim.time()
-                if fail or sim.time() - start >= timeout:
-                    world.timeouts += 1
-                    raise AlreadyLocked("already locked: %s" % self.filename)
-                sim.sleep(check_interval)
+            # like portalocker: open (creating) the lock file ONCE, then retry a non-blocking flock on that open
+            # file description; the lock belongs to the inode behind it, not to the path
+            fh = open(self.filename, "a")
+            try:
+                st = os.fstat(fh.fileno())
+                key = (st.st_dev, st.st_ino)
+                alias = world.alias(key)
+                start = None
+                while True:
+                    sim.yield_point("lock-try", world.rel(self.filename), alias)
+                    if key not in world.held:
+                        world.held[key] = (pid, self)
+                        world.acquired += 1
+                        self.fh = fh
+                        self._key = key
+                        sim.record("lock-acquired", world.rel(self.filename), alias)
+                        return self.fh
+                    world.contended += 1
+                    sim.record("lock-busy", world.rel(self.filename), alias)
+                    if start is None:
+                        start = sim.time()
+                    if fail or sim.time() - start >= timeout:
+                        world.timeouts += 1
+                        raise AlreadyLocked("already locked: %s" % self.filename)
+                    sim.sleep(check_interval)
+            except BaseException:
+                if self.fh is None:
+                    try:
+                        fh.close()
+                    except Exception:  # noqa
+                        pass
+                raise
 
         def release(self):
             if self.fh is None:
                 return
             sim.yield_point("lock-release", world.rel(self.filename), None)
-            cur = world.held.get(self.filename)
+            cur = world.held.get(self._key)
             if cur is not None and cur[1] is self:
-                del world.held[self.filename]
-                sim.record("lock-released", world.rel(self.filename))
+                del world.held[self._key]
+                sim.record("lock-released", world.rel(self.filename), world.alias(self._key))
             try:
                 self.fh.close()
             except Exception:  # noqa
